@@ -233,6 +233,7 @@ Qed.
 Section RelN.
 Variable cf : cfg.
 Variable funs : list func.
+Variable jumps : bool.   (* break / continue admitted in closure bodies (stage 4) *)
 
 (* the closure's handle vector against its upvalue list: every index stands for a cell, the handle holds that cell *)
 Definition UR (K HL : list nat) (E : list lev) (envs : list env) (Ufin : ups_t) (uvec : list nat) : Prop :=
@@ -261,10 +262,11 @@ Qed.
 Inductive vrelN (K HL : list nat) : sval -> mval -> Prop :=
 | VN_int : forall z, vrelN K HL (SVInt z) (MInt z)
 | VN_nil : vrelN K HL SVNil MNil
+| VN_stop : vrelN K HL SVStop MStop
 | VN_clo : forall ps body fn uvec Lp Ein fs0 cb Lb' Ub Eout fs1 Efin envs,
-    forallb (stmt5 true false) body = true ->
+    forallb (stmt6 jumps true false false) body = true ->
     bparams cf ps [mkLocal None (Some 0) false] = Some Lp ->
-    nlist cf body 1 Lp [] Ein fs0 = Some (cb, Lb', Ub, Eout, fs1) ->
+    nlist cf body 1 Lp [] Ein fs0 0 None = Some (cb, Lb', Ub, Eout, fs1) ->
     levs_ok Ein -> levs_up Eout Efin ->
     nth_error funs fn = Some (mkFunc (cb ++ [INil; IReturn]) (List.length ps) (List.length Ub)) ->
     (exists ext, funs = (fs1 ++ ext)%list) ->
